@@ -160,9 +160,24 @@ static void *asm_mmap_file(char *asm_file, size_t *str_len) {
 
   // NOLINTNEXTLINE
   FAIL_SYS(fstat(fd, &file_stat), "failed to get file stats\n", MAP_FAILED);
-  // map file contents to a string
-  *str_len = file_stat.st_size;
-  void *str = mmap(NULL, *str_len, PROT_READ, MAP_PRIVATE, fd, 0);
+  // copy the file contents into a zero-filled mapping that has room for the
+  // terminating '\0' (a file mapping has none when the size is a multiple of
+  // the page size, and cannot be created for an empty file)
+  size_t file_len = file_stat.st_size;
+  *str_len = file_len + 1;
+  char *str = mmap(NULL, *str_len, PROT_READ | PROT_WRITE,
+                   MAP_PRIVATE | MAP_ANONYMOUS, -1, 0);
+  if (str != MAP_FAILED) { // NOLINT
+    size_t done = 0;
+    ssize_t got = 0;
+    while (done < file_len &&
+           (got = read(fd, str + done, file_len - done)) > 0)
+      done += got;
+    if (done != file_len) {
+      munmap(str, *str_len);
+      str = MAP_FAILED; // NOLINT
+    }
+  }
   close(fd);
   return str;
 }
